@@ -6,6 +6,7 @@ import (
 	"github.com/go-kid/ioc/container"
 	"github.com/go-kid/ioc/definition"
 	"github.com/pkg/errors"
+	"reflect"
 )
 
 type propertiesAwarePostProcessors struct {
@@ -21,7 +22,12 @@ func NewPropertiesAwarePostProcessors() container.InstantiationAwareComponentPos
 			NodeType: component_definition.PropertyTypeConfiguration,
 			Tag:      definition.PrefixTag,
 			ExtractHandler: func(meta *component_definition.Meta, field *component_definition.Field) (tag, tagVal string, ok bool) {
-				if configuration, infer := field.Value.Interface().(definition.ConfigurationProperties); infer {
+				value := field.Value
+				if value.Kind() == reflect.Pointer && value.IsNil() {
+					//Prefix() may be declared with a value receiver: ask a fresh value of the element type instead of a nil pointer
+					value = reflect.New(value.Type().Elem())
+				}
+				if configuration, infer := value.Interface().(definition.ConfigurationProperties); infer {
 					tagVal = configuration.Prefix()
 					ok = true
 				}
